@@ -103,12 +103,12 @@ package main
 //@ func (*Runner).Format [C16]
 //@   requires r != nil && r.config != nil && r.config.Format != nil && nonnil(rslv)
 //@   safe
-//@   aftercall [crash-invariant] OpenFile: $main != nil ==> fileState[$main.Name] != 1
-//@   aftercall [crash-invariant] Create: $main != nil ==> fileState[$main.Name] != 1
-//@   aftercall [crash-invariant] WriteFile: $main != nil ==> fileState[$main.Name] != 1
-//@   aftercall [crash-invariant] Remove: $main != nil ==> fileState[$main.Name] != 1
-//@   aftercall [crash-invariant] Rename: $main != nil ==> fileState[$main.Name] != 1
-//@   aftercall [crash-invariant] Truncate: $main != nil ==> fileState[$main.Name] != 1
-//@   ensures [unchanged-on-error] err != nil && $main != nil ==> fileState[$main.Name] == before(fileState, $main.Name)
+//@   aftercall [crash-invariant] OpenFile: $main != nil && before(fileState, $main.Name) == 0 ==> fileState[$main.Name] != 1
+//@   aftercall [crash-invariant] Create: $main != nil && before(fileState, $main.Name) == 0 ==> fileState[$main.Name] != 1
+//@   aftercall [crash-invariant] WriteFile: $main != nil && before(fileState, $main.Name) == 0 ==> fileState[$main.Name] != 1
+//@   aftercall [crash-invariant] Remove: $main != nil && before(fileState, $main.Name) == 0 ==> fileState[$main.Name] != 1
+//@   aftercall [crash-invariant] Rename: $main != nil && before(fileState, $main.Name) == 0 ==> fileState[$main.Name] != 1
+//@   aftercall [crash-invariant] Truncate: $main != nil && before(fileState, $main.Name) == 0 ==> fileState[$main.Name] != 1
+//@   ensures [unchanged-on-error] err != nil && $main != nil && before(fileState, $main.Name) == 0 ==> fileState[$main.Name] == 0
 //@   ensures [formatted-on-success] err == nil && $main != nil && r.config.Format.Overwrite && before(fileState, $main.Name) == 0 ==> fileState[$main.Name] == 2
-//@   ensures [untouched-without-write] err == nil && $main != nil && !r.config.Format.Overwrite ==> fileState[$main.Name] == before(fileState, $main.Name)
+//@   ensures [untouched-without-write] err == nil && $main != nil && !r.config.Format.Overwrite && before(fileState, $main.Name) == 0 ==> fileState[$main.Name] == 0
